@@ -80,6 +80,9 @@ func (g *genState) leaves() []*tree.Node {
 		mk("bin64", func(n *tree.Node) { n.Data = pay(8) }),
 		mk("bin128", func(n *tree.Node) { n.Data = pay(16) }),
 		mk("bin256", func(n *tree.Node) { n.Data = pay(32) }),
+		mk("bin64", func(n *tree.Node) { n.Data = make([]byte, 8) }),
+		mk("bin128", func(n *tree.Node) { n.Data = make([]byte, 16) }),
+		mk("bin256", func(n *tree.Node) { n.Data = make([]byte, 32) }),
 		mk("bytes", func(n *tree.Node) { n.Data = nil }),
 		mk("bytes", func(n *tree.Node) { n.Data = pay(0xfd) }),
 		mk("str", func(n *tree.Node) { n.Data = pay(0xfc) }),
